@@ -1,7 +1,7 @@
 (** C07 -- WSDL/XSD are well-formed, closed, deterministic and drive a foreign client.
     Property theorems only; each closed by [exact] of a lemma proved in coq/C07/. *)
 From Coq Require Import ZArith List Bool Permutation.
-From SpyneV Require Import Base.Prelude C07.Model C07.SortProofs C07.PrefixProofs C07.WsdlProofs C07.TopoProofs C07.SchemaProofs C07.TieProofs.
+From SpyneV Require Import Base.Prelude C07.Model C07.SortProofs C07.PrefixProofs C07.WsdlProofs C07.TopoProofs C07.SchemaProofs C07.TieProofs C07.ImportProofs.
 Import ListNotations.
 Open Scope Z_scope.
 
@@ -126,6 +126,22 @@ Theorem C07_schema_closed : forall perm a d,
   (forall l, Permutation (perm l) l) -> wsdl_of perm a = ROk d -> wf_snap a ->
   schema_closed d /\ parts_closed d.
 Proof. exact schema_closed_thm. Qed.
+
+(** every schema document imports every namespace it refers to (XSD part 1, 4.2.3):
+    each base=, member type= and element type= written in a schema names the
+    schema's own namespace, the XSD namespace or a namespace of its xs:import list
+    -- given what add_class / add_method registered in Interface.imports
+    ([wf_importsb], decidable, evaluated on every snapshot) *)
+Theorem C07_imports_closed : forall perm a d,
+  wsdl_of perm a = ROk d -> wf_importsb a = true -> imports_closed d.
+Proof. exact imports_closed_thm. Qed.
+
+(** the document is built from the Interface alone: build_interface_document starts
+    by rebuilding the schema nodes from an empty table (read from the source), which
+    is the initial state [wsdl_of] starts from -- whatever was built on the same
+    Wsdl11 object before (the validation schema of validator='lxml') *)
+Theorem C07_rebuilds_schema : gen_rebuilds_schema = true.
+Proof. reflexivity. Qed.
 
 (** the hypothesis is decidable; the harness evaluates [wf_snapb] on the snapshot of
     every generated application *)
@@ -325,3 +341,10 @@ Proof.
   split; [vm_compute; reflexivity|]. split; [vm_compute; reflexivity|]. split; [vm_compute; reflexivity|].
   eexists. split; vm_compute; reflexivity.
 Qed.
+
+(** the hypothesis of C07_imports_closed holds on the snapshot with three
+    namespaces, and fails as soon as the tns schema loses the import its header
+    element needs *)
+Example C07_ex_imports : wf_importsb ex_schema_app = true /\
+  wf_importsb (with_imports ex_schema_app [(tns0, [[104]]); ([107], []); ([104], [[107]])]) = false.
+Proof. split; vm_compute; reflexivity. Qed.
